@@ -72,7 +72,8 @@ def plan(tier, seed):
 
 
 def required(tier):
-    return {"sum_to_one_cells": 300, "pmf_checked": 50000, "conditional_checked": 50000, "assemble_vs_call": 2000,
+    return {"assemble_long_locus_patterns": 500, "assemble_long_locus_patterns_with_three_copies": 200, "assemble_long_locus_sum_cells": 60,
+            "sum_to_one_cells": 300, "pmf_checked": 50000, "conditional_checked": 50000, "assemble_vs_call": 2000,
             "exact_fraction_checked": 2000, "zero_freq_cells": 20, "high_ploidy_cells": 20, "prior_order_independence_checked": 50000,
             "prog_datasets": 12, "prog_gp_vectors_checked": 80, "prog_datasets_equal_ploidy_unequal_inbreeding": 6}
 
@@ -247,6 +248,53 @@ def run_assemble(rng, col, K, n_cases):
         if abs(got - call) > 1e-9 * max(1, abs(call)) or abs(got - want) > 1e-9 * max(1, abs(want)):
             col.violation("assemble-prior-differs-from-flat-call-prior", "assemble prior %.12g, call prior(flat over %d haplotypes) %.12g, oracle %.12g for %s F=%g" % (got, u, call, want, g.tolist(), F),
                           {"kind": "assemble", "genotype": g.tolist(), "n_alleles": n_alleles.tolist(), "F": F})
+    # session 4: long loci - astronomically many possible haplotypes, per-haplotype dispersion tiny.  The space cannot be
+    # enumerated, but the prior depends on a genotype only through its copy-number pattern: every pattern (integer partition of
+    # the ploidy) is compared with the log-space oracle, and sum over patterns of (#genotypes with the pattern) x prior == 1
+    # with the count U (U-1) ... (U-k+1) / prod m_i! taken in exact integer arithmetic.
+    def partitions(n, largest=None):
+        largest = n if largest is None else largest
+        if n == 0:
+            yield []
+            return
+        for first in range(min(n, largest), 0, -1):
+            for rest in partitions(n - first, first):
+                yield [first] + rest
+
+    for c in range(max(4, n_cases // 25)):
+        ploidy = int(rng.choice([2, 3, 4, 5, 6, 8, 10, 12]))
+        n_pos = int(rng.choice([20, 24, 27, 30, 34, 40, 64, 100, 200, 300]))
+        n_alleles = rng.choice([2, 2, 2, 3, 4], size=n_pos)
+        U = math.prod(int(a) for a in n_alleles)
+        log_u = float(np.log(n_alleles.astype(np.int64)).sum())
+        F = float(rng.choice([0.0, 0.05, 0.1, 0.5, 0.9, 0.999])) if rng.random() < 0.8 else float(rng.uniform(0.001, 0.99))
+        terms = []
+        for lam in partitions(ploidy):
+            dosage = np.zeros(ploidy, dtype=np.int8)
+            dosage[: len(lam)] = lam
+            if rng.random() < 0.5:
+                dosage = dosage[rng.permutation(ploidy)]   # get_haplotype_dosage leaves the counts at first-occurrence rows
+            got = float(K["asm_prior"](dosage, log_u, F))
+            g = [(i,) for i, c_ in enumerate(lam) for _ in range(c_)]
+            want = M.assemble_log_prior(g, U, F)
+            col.count("assemble_long_locus_patterns")
+            if max(lam) >= 3:
+                col.count("assemble_long_locus_patterns_with_three_copies")
+            col.case("AL%d|%d|%r|%s" % (n_pos, U % 1000003, F, lam), nontrivial=ploidy >= 2)
+            if abs(got - want) > 1e-9 * max(1, abs(want)):
+                col.violation("assemble-prior-differs-from-dirichlet-multinomial-on-long-locus", "assemble prior %.12g, Dirichlet-multinomial with flat frequencies over the %d-digit number of possible haplotypes %.12g; copy numbers %s, ploidy %d, %d SNVs, F=%g"
+                              % (got, len(str(U)), want, lam, ploidy, n_pos, F), {"kind": "assemble_long", "lam": lam, "n_alleles": n_alleles.tolist(), "F": F})
+            mult = {}
+            for v in lam:
+                mult[v] = mult.get(v, 0) + 1
+            log_count = sum(math.log(U - i) for i in range(len(lam))) - sum(math.lgamma(m + 1) for m in mult.values())
+            terms.append(log_count + got)
+        mx = max(terms)
+        tot = mx + math.log(math.fsum(math.exp(t - mx) for t in terms))
+        col.count("assemble_long_locus_sum_cells")
+        if abs(tot) > 1e-8:
+            col.violation("prior-does-not-sum-to-one", "assemble prior on a long locus (%d SNVs, ploidy %d, F %g): log of the total mass over all copy-number patterns is %.12g, not 0" % (n_pos, ploidy, F, tot),
+                          {"kind": "assemble_long_sum", "n_alleles": n_alleles.tolist(), "ploidy": ploidy, "F": F})
     # assemble prior sums to one over all multisets of haplotypes for small loci
     for n_alleles in ([2], [3], [2, 2], [2, 3], [2, 2, 2]):
         allh = gen.all_haplotypes(n_alleles)
